@@ -525,7 +525,11 @@ pub fn random_rel(rng: &mut Rng, clean: bool) -> LRel {
         name: rng.pick(&NAMES).to_string(),
         archqual: if rng.chance(30) { Some(rng.pick(&["any", "native", "amd64"]).to_string()) } else { None },
         version: if rng.chance(55) { Some((rng.pick(&OPS).clone(), rng.pick(&VERS).parse().unwrap())) } else { None },
-        architectures: if clean || rng.chance(50) {
+        architectures: if rng.chance(15) {
+            // drawn with replacement: repeated architectures (same or opposite sign) are legal
+            let n = 2 + rng.below(3);
+            Some((0..n).map(|_| format!("{}{}", if rng.chance(40) { "!" } else { "" }, rng.pick(&ARCHS))).collect())
+        } else if clean || rng.chance(50) {
             let n = rng.below(4);
             Some(rng.pick(&archs_variants(n)).clone())
         } else {
@@ -533,7 +537,17 @@ pub fn random_rel(rng: &mut Rng, clean: bool) -> LRel {
         },
         profiles: {
             let k = if rng.chance(50) { 0 } else if clean { 1 } else { 1 + rng.below(3) };
-            (0..k).map(|_| { let n = 1 + rng.below(3); group_variants(n, rng) }).collect()
+            let mut gs: Vec<Vec<BuildProfile>> = (0..k).map(|_| { let n = 1 + rng.below(3); group_variants(n, rng) }).collect();
+            // a repeated term inside a group, a repeated group
+            if !gs.is_empty() && rng.chance(12) {
+                let t = gs[0][0].clone();
+                gs[0].push(t);
+            }
+            if !clean && !gs.is_empty() && rng.chance(12) {
+                let g = gs[0].clone();
+                gs.push(g);
+            }
+            gs
         },
     }
 }
@@ -573,6 +587,18 @@ pub fn generate_c14(tier: &str, seed: u64, out: &mut Out) {
                     }
                 }
             }
+        }
+    }
+    // repeated architectures / profile terms (legal, redundant): kept as written by every conversion
+    for archs in [vec!["amd64", "amd64"], vec!["!i386", "!i386"], vec!["amd64", "i386", "amd64"], vec!["amd64", "!amd64"]] {
+        for profs in [vec![], vec![vec![BuildProfile::Enabled("a".into()), BuildProfile::Enabled("a".into())]]] {
+            rels.push(LRel {
+                name: "a".to_string(),
+                archqual: None,
+                version: None,
+                architectures: Some(archs.iter().map(|s| s.to_string()).collect()),
+                profiles: profs,
+            });
         }
     }
     // every operator and every version once
@@ -619,7 +645,7 @@ pub fn generate_c14(tier: &str, seed: u64, out: &mut Out) {
     }
     out.req("rel.lrels", &["();(x61:none:none:L:)".to_string()]);
     // 4. mutator histories on a root handle: every sequence of <= 3 (thorough: 4) operations
-    let mops = ["aq=x616e79", "ver=ge.x31", "ver=gt.x323a33", "ver=none", "drop=1", "arch=x616d643634,x2169333836", "arch=", "prof=GEx61,Dx62", "prof=GDx63"];
+    let mops = ["aq=x616e79", "ver=ge.x31", "ver=gt.x323a33", "ver=none", "drop=1", "arch=x616d643634,x2169333836", "arch=", "arch=x616d643634,x616d643634", "prof=GEx61,Dx62", "prof=GDx63"];
     let maxlen = if thorough { 4 } else { 3 };
     for start in ["none", "le.x302e31"] {
         for seq in lists_upto(&mops, maxlen) {
